@@ -98,24 +98,33 @@ Print Assumptions C10_relink_whole_record_witness.
 (* ---- qualifier-level codecs ---- *)
 
 (* the aStool qualifier: SubRegion / Protocluster write the tool name, the sideloaded variants write
-   "externally annotated by: " ++ tool; from_biopython (startswith test, split(": ", 1)[1]) gives back
-   the class and the full tool name - whatever the name contains (": ", quotes, ...) - provided the
-   name itself does not start with "externally annotated" *)
-Theorem C10_astool_codec : forall side tool, starts_with ext_prefix tool = false ->
+   "externally annotated by: " ++ tool; from_biopython (startswith test when no feature is passed in,
+   split(": ", 1)[1]) gives back the class and the full tool name - whatever the name contains (": ",
+   quotes, ...).  For a sideloaded area (where the name is user input: any non-empty string of the
+   sideload schema) there is no proviso any more (finding C10-F62 sideloaded_tool_prefix_recursion,
+   repaired); for an ordinary area (where the name is one of antiSMASH's own module names) the name must
+   not start with "externally annotated", the marker of the sideloaded classes *)
+Theorem C10_astool_codec : forall side tool, (side = false -> starts_with ext_prefix tool = false) ->
   astool_decode (astool_text side tool) = Ok (side, tool).
 Proof. exact astool_codec. Qed.
 Print Assumptions C10_astool_codec.
 
-(* without that proviso the statement is false: the sideloaded tool "externally annotated by me" is
-   written but reading recurses without end (RecursionError, a RuntimeError); the ordinary subregion
-   tool "externally annotated: x" reads back as the sideloaded tool "x"; "externally annotated" alone
-   raises IndexError (known finding sideloaded_tool_prefix_recursion) *)
-Theorem C10_astool_prefix_refuted :
-  astool_decode (astool_text true W_tool_rec) = Err E_Runtime /\
+(* the former refutation, now positive: the sideloaded tool "externally annotated by me" (it has the
+   prefix; reading it recursed until RecursionError) comes back as the same sideloaded tool *)
+Theorem C10_astool_prefix_repaired :
+  starts_with ext_prefix W_tool_rec = true /\
+  astool_decode (astool_text true W_tool_rec) = Ok (true, W_tool_rec).
+Proof. exact astool_prefix_repaired. Qed.
+Print Assumptions C10_astool_prefix_repaired.
+
+(* the proviso that is left cannot be dropped, by the design of the format: the ordinary tool
+   "externally annotated: x" is the text of the sideloaded tool "x", and "externally annotated" alone has
+   no ": " to split at (IndexError).  No antiSMASH module has such a name *)
+Theorem C10_astool_marker_reserved :
   astool_decode (astool_text false W_tool_plain) = Ok (true, [120]) /\
   astool_decode (astool_text false ext_prefix) = Err E_Index.
-Proof. exact astool_prefix_refuted. Qed.
-Print Assumptions C10_astool_prefix_refuted.
+Proof. exact astool_marker_reserved. Qed.
+Print Assumptions C10_astool_marker_reserved.
 
 (* number lists (protoclusters, candidate_cluster_numbers, subregion_numbers): [int(t) for t in
    [str(n) for n in numbers]] = numbers, in the written order *)
@@ -160,8 +169,9 @@ Proof. vm_compute. split; reflexivity. Qed.
 (* a tool name holding ": " satisfies the guard of C10_astool_codec; a CORE annotation with product
    and a description holding ": " satisfies the guard of C10_gene_function_codec *)
 Example C10_ex_astool : starts_with ext_prefix W_tool_colon = false /\
-  astool_decode (astool_text true W_tool_colon) = Ok (true, W_tool_colon).
-Proof. split; reflexivity. Qed.
+  astool_decode (astool_text true W_tool_colon) = Ok (true, W_tool_colon) /\
+  astool_decode (astool_text false W_tool_colon) = Ok (false, W_tool_colon).
+Proof. repeat split; reflexivity. Qed.
 
 Example C10_ex_gene_function :
   wf_gfa (mkGfa 1 [115; 109; 99; 111; 103; 115] (Some [84; 49; 80; 75; 83]) [97; 58; 32; 98]) = true.
